@@ -503,6 +503,33 @@ pub fn stateful_doc(rng: &mut Rng) -> String {
     s
 }
 
+/// A <config> element with a value its key may or may not accept, followed by content whose
+/// bytes depend on the random stream and on the generated styles: whatever svgdx makes of the
+/// value (an error included), it must make the same of it every time.
+pub fn odd_config_doc(rng: &mut Rng) -> String {
+    const KEYS: &[&str] = &[
+        "seed", "seed", "seed", "scale", "border", "loop-limit", "var-limit", "depth-limit", "font-size", "font-family", "theme", "background",
+        "debug", "add-auto-styles", "use-local-styles", "svg-style", "nonesuch",
+    ];
+    const VALUES: &[&str] = &[
+        "name", "-1", "1e3", "0x10", "", " 5 ", "5.0", "true", "\u{661}\u{662}\u{663}", "+7", "18446744073709551616", "NaN", "inf", "0", "seed",
+        "1_000", "7;8", "${x}", "{{1 + 1}}", "white", "dark", "#fff", "none",
+    ];
+    let (k, v) = (*rng.pick(KEYS), *rng.pick(VALUES));
+    let mut s = String::from("<svg>\n");
+    if rng.chance(1, 3) {
+        s.push_str("  <rect wh=\"3\" text=\"p{{randint(0, 999999)}}\"/>\n");
+    }
+    s.push_str(&format!("  <config {k}=\"{v}\"/>\n"));
+    s.push_str("  <rect xy=\"^|h 2\" wh=\"{{randint(1, 9)}}\" text=\"a{{randint(0, 999999)}}\" class=\"d-grid-5 d-red\"/>\n");
+    s.push_str("  <loop count=\"3\"><circle r=\"{{random() + 1}}\" cxy=\"{{randint(0, 50)}} {{randint(0, 50)}}\" class=\"d-hatch d-fill-blue\"/></loop>\n");
+    if rng.chance(1, 2) {
+        s.push_str(&format!("  <config {}=\"{}\"/>\n  <text xy=\"0 60\" text=\"z{{{{random()}}}}\"/>\n", *rng.pick(KEYS), *rng.pick(VALUES)));
+    }
+    s.push_str("</svg>\n");
+    s
+}
+
 pub const THEMES: &[&str] = &["default", "bold", "fine", "glass", "light", "dark"];
 
 /// A configuration with limits at or below their defaults.
